@@ -5,6 +5,7 @@ package pongo2
 import (
 	"io"
 	"strings"
+	"sync"
 )
 
 // symString: n symbolic bytes, full range 0..255.
@@ -94,6 +95,7 @@ func newStringReader(s string) io.Reader { return strings.NewReader(s) }
 
 // memLoader: in-memory TemplateLoader that records what it is asked for.
 type memLoader struct {
+	mu    sync.Mutex
 	files map[string]string
 	gets  int
 	log   []string
@@ -101,6 +103,8 @@ type memLoader struct {
 
 func (m *memLoader) Abs(base, name string) string { return name }
 func (m *memLoader) Get(path string) (io.Reader, error) {
+	m.mu.Lock()
+	defer m.mu.Unlock()
 	m.gets++
 	m.log = append(m.log, path)
 	s, ok := m.files[path]
